@@ -176,26 +176,23 @@ func (r *sqRun) advance(dt int64) *verifkit.Failure {
 	}
 	if verifkit.Avoid("C03-stale-cached-clock") {
 		const lim = int64(29_900_000_000)
-		for dt > 0 {
-			room := lim - (r.now() - r.lastRefresh)
-			if room <= 0 {
-				room = 0
-			}
-			if dt <= room {
-				break
-			}
+		if r.now()+dt-r.lastRefresh >= lim {
 			if r.stalled || r.tickReq {
-				// cannot refresh while the policy lock is held: clamp
+				// cannot refresh while the policy lock is held: clamp the advance
+				room := lim - (r.now() - r.lastRefresh) - 1
+				if room < 0 {
+					room = 0
+				}
 				r.x.Class("advance-clamped(known C03-stale-cached-clock)")
 				verifkit.AddCount("advance_clamped_known_C03", 1)
-				dt = room
-				break
+				vkAdvance(room)
+				return nil
 			}
-			vkAdvance(room)
-			dt -= room
-			if f := r.tick(); f != nil {
-				return f
-			}
+			// refresh the cached clock right after the jump, before any read can trust a stale value
+			vkAdvance(dt)
+			r.x.Class("tick-forced-after-advance(known C03-stale-cached-clock)")
+			verifkit.AddCount("tick_forced_known_C03", 1)
+			return r.tick()
 		}
 	}
 	vkAdvance(dt)
@@ -274,7 +271,9 @@ func execSeq(c sqCase, x *verifkit.Ctx, c03, c06 bool) (fail *verifkit.Failure) 
 		}
 	}()
 	vkResetWall()
-	VerifNoMaintenance.Store(false)
+	if VerifNoMaintenance.Load() {
+		panic("sequential harness needs the real maintenance goroutines")
+	}
 	r.s = NewStore[int, int](&StoreOptions[int, int]{MaxSize: int64(c.MaxSize), Doorkeeper: c.Doorkeeper, Listener: r.listener})
 	defer r.close()
 	r.s.mask = 0
